@@ -931,6 +931,26 @@ def run_xtarget(res, prop):
                         "table_cached": table.get("cached", False), "interpretation_wall_s": table.get("wall_s")})
 
 
+def run_giant(res, prop):
+    """Offsets beyond 32 bits: three heads with one 4 GiB header value (thorough tier; needs ~4.1 GiB)."""
+    binary = build_variant("runtime", "release")
+    rc, so, se, dt = run([binary, "giant"], timeout=1800)
+    if "giant skipped" in so:
+        res.engines.append({"engine": "giant leg", "skipped": so.strip()})
+        return
+    m = re.search(r"giant: 3 heads", so)
+    if rc == 1 and "GIANT" in so:
+        first = [l for l in so.splitlines() if l.startswith("GIANT")][0]
+        path = write_replay("%s-giant.json" % prop, {"property": prop, "kind": "giant", "what": "a head with a 4 GiB header value: " + first})
+        res.add_violation(path, first[:200])
+        return
+    if rc != 0 or not m:
+        raise Machinery("giant leg failed to run: rc=%d %s" % (rc, se[-500:]))
+    res.states += 3
+    res.transitions += 3
+    res.engines.append({"engine": "giant leg: request / response / parse_headers with one header value of 4 GiB + 16 bytes; offset, name and value ranges compared with the construction", "wall_s": round(dt, 1)})
+
+
 # ------------------------------------------------------------------------------------------
 # dispatch
 # ------------------------------------------------------------------------------------------
@@ -939,7 +959,7 @@ def run_for(prop, tier, res):
     extra = []
     if prop == "C18":
         run_histories(res, "reuse", "C18")
-        extra.append("histories: <= %d earlier calls drawn from the buffer tables (25 request, 24 response, 14 header-block buffers; every error kind occurs) x %d entry points per message kind, capacities 0..3; canonicalised by the snapshot of everything a later call can read, cross-checked by an un-canonicalised search one level shallower" % ((3, 3) if tier == "quick" else (4, 4)))
+        extra.append("histories: <= %d earlier calls drawn from the buffer tables (28 request, 27 response, 14 header-block buffers; every error kind occurs; long targets and reasons of equal length) x %d entry points per message kind, capacities 0..3; canonicalised by the snapshot of everything a later call can read, cross-checked by an un-canonicalised search one level shallower" % ((3, 3) if tier == "quick" else (4, 4)))
     elif prop == "C17":
         run_histories(res, "reuse", "C17")
     elif prop == "C16":
@@ -976,6 +996,9 @@ def run_for(prop, tier, res):
     elif prop == "C20":
         run_cachegrind(res)
         extra.append("cursor counters see work done through the cursor API; the instruction-count leg sees everything, on 3 sizes per family")
+    if prop in ("C04", "C03") and tier != "quick" and not res.violations:
+        run_giant(res, prop)
+        extra.append("offsets beyond 2^32 are exercised by the giant leg only (three inputs, thorough tier)")
     if (prop in XT_RULES or prop == "C12") and not res.violations:
         run_xtarget(res, prop)
         extra.append("32-bit and big-endian targets are not executed natively: the cross-target leg interprets a reduced corpus with Miri (i686, s390x, mips) and compares with the native run")
@@ -1065,6 +1088,10 @@ def replay(rep, path):
         print(so)
         print(se[-2500:])
         return 0 if rc == 0 else 1
+    if kind == "giant":
+        rc, so, se, _ = run([build_variant("runtime", "release"), "giant"], timeout=1800)
+        print(so)
+        return 1 if rc == 1 else 0
     if kind == "deep":
         b = build_variant("runtime", rep["profile"])
         rc, so, se, _ = run([b, "deep", str(rep["size"]), rep["family"]], timeout=3000)
